@@ -289,12 +289,12 @@ func init() {
 				eq := r.eqVal(StrV{b: xb}, StrV{b: yb})
 				return r.ts.Ite(lt, r.ts.Const(64, ^uint64(0)), r.ts.Ite(eq, r.ts.Const(64, 0), r.ts.Const(64, 1)))
 			}
-			return r.ts.Const(64, uint64(int64(x.v.Cmp(y.v))))
+			return r.constI64(int64(x.v.Cmp(y.v)))
 		},
 		B + "CmpAbs": func(r *Run, fn *ssa.Function, a []Value) Value {
 			x, y := r.bigCell(a[0], false), r.bigCell(a[1], false)
 			r.needConcrete(x, y)
-			return r.ts.Const(64, uint64(int64(x.v.CmpAbs(y.v))))
+			return r.constI64(int64(x.v.CmpAbs(y.v)))
 		},
 		B + "Sign": func(r *Run, fn *ssa.Function, a []Value) Value {
 			x := r.bigCell(a[0], false)
@@ -308,14 +308,14 @@ func init() {
 				}
 				return r.ts.Ite(nz, r.ts.Const(64, 1), r.ts.Const(64, 0))
 			}
-			return r.ts.Const(64, uint64(int64(x.v.Sign())))
+			return r.constI64(int64(x.v.Sign()))
 		},
 		B + "Int64": func(r *Run, fn *ssa.Function, a []Value) Value {
 			x := r.bigCell(a[0], false)
 			if x.sym != nil {
 				return r.intBigToTerm(x, 64)
 			}
-			return r.ts.Const(64, uint64(x.v.Int64()))
+			return r.constI64(x.v.Int64())
 		},
 		B + "Uint64": func(r *Run, fn *ssa.Function, a []Value) Value {
 			x := r.bigCell(a[0], false)
@@ -441,6 +441,13 @@ func (r *Run) bigMagBytes(x *BigV) ([]*Term, bool) {
 		return append([]*Term{}, x.bsym...), false
 	}
 	return r.constBytes(x.v.Bytes()), x.v.Sign() < 0
+}
+
+func (r *Run) constI64(v int64) *Term {
+	if r.ts.intMode {
+		return r.ts.IConst64(v)
+	}
+	return r.ts.Const(64, uint64(v))
 }
 
 var _ = fmt.Sprint
